@@ -578,6 +578,26 @@ def plant_dups(d):
     return [v for v in out if ambiguous(v)]
 
 
+def field_ret_variants(d):
+    """the declaration asked for a type that only an expanded struct FIELD supplies (one variant per such field)"""
+    out = []
+    if not accepts(d):
+        return out
+    k = 0
+    for p in d['providers']:
+        if p['kind'] != 'structexp':
+            continue
+        for fn, ft in d['types'][p['struct']].get('fields', []):
+            v = copy.deepcopy(d)
+            v['ret'] = ft
+            v['id'] = '%sq%d' % (d['id'], k)
+            v['injector'] = 'Init_' + v['id']
+            k += 1
+            if accepts(v) and ft in suppliers(v):
+                out.append(v)
+    return out
+
+
 def plant_orphan(d):
     if not accepts(d):
         return []
@@ -652,6 +672,33 @@ def make_group(gid, decls):
         v['group'] = gid
         out.append(v)
     return out
+
+
+def shared_group(rng, gid, d):
+    """Two declarations in ONE file that use the SAME provider functions under different wrappers: the second one flips
+    Async marks, changes the Async/Bind nesting, drops interface bindings (the interface then becomes an injector argument)
+    and lists the providers flat in another order.  Whatever the generator learns about a provider while handling one
+    declaration must not leak into the other."""
+    a = suffix_decl(d, 'a')
+    a['id'], a['injector'], a['group'] = '%s_0' % gid, 'Init_%s_0' % gid, gid
+    b = copy.deepcopy(a)
+    b['id'], b['injector'], b['shared'] = '%s_1' % gid, 'Init_%s_1' % gid, True
+    fns = [p for p in b['providers'] if p['kind'] == 'fn']
+    for p in fns:
+        if rng.random() < 0.6:
+            p['async'] = not p['async']
+        p['wrap'] = rng.choice(['async-bind', 'bind-async'])
+        if rng.random() < 0.5:
+            p['provides'] = [[g[0]] for g in p['provides']]     # no Bind here
+    if fns and all(p['async'] == q['async'] for p, q in zip(fns, [x for x in a['providers'] if x['kind'] == 'fn'])):
+        fns[0]['async'] = not fns[0]['async']
+    ids = [p['id'] for p in b['providers']]
+    rng.shuffle(ids)
+    b['layout'] = ids
+    if rng.random() < 0.5:
+        a, b = b, a
+        a['shared'], b['shared'] = False, True
+    return [a, b]
 
 
 def tree_decl(rng, did, n=6, p_async=0.85):
